@@ -52,7 +52,11 @@ func newImmWorld(w *world, order []int, decoded bool) (*immWorld, error) {
 	// bounds with a sub-second part: a read-only operation that normalises them in place is visible
 	dopts := []delegation.Option{delegation.WithSubject(iw.iss.id), delegation.WithExpirationIn(time.Hour + 300*time.Millisecond),
 		delegation.WithNotBeforeIn(-time.Hour - 700*time.Millisecond)}
-	iopts := []invocation.Option{}
+	// metadata values of every kind a token carries in practice: large binary values, ciphertexts
+	blob := bytes.Repeat([]byte{0xab, 0x01}, 30)
+	encKey := bytes.Repeat([]byte{7}, 32)
+	dopts = append(dopts, delegation.WithMeta("blob", blob), delegation.WithEncryptedMetaString("secret", "a secret note", encKey))
+	iopts := []invocation.Option{invocation.WithMeta("blob", blob), invocation.WithEncryptedMetaBytes("secret", []byte("a secret note"), encKey)}
 	for _, k := range order {
 		name := immKeyNames[k]
 		iw.keys = append(iw.keys, name)
@@ -232,7 +236,7 @@ var immOps = []immOp{
 			return "err:" + err.Error()
 		}
 		_, f, _ := fieldsOf(t)
-		for _, k := range []string{"iat", "nonce", "prf"} { // differ between token instances
+		for _, k := range []string{"iat", "nonce", "prf", "meta"} { // differ between token instances
 			delete(f, k)
 		}
 		x, _ := json.Marshal(jsonFields(f))
@@ -252,7 +256,7 @@ var immOps = []immOp{
 			return "err:" + err.Error()
 		}
 		_, f, _ := fieldsOf(t)
-		for _, k := range []string{"nonce", "nbf", "exp"} { // differ between token instances
+		for _, k := range []string{"nonce", "nbf", "exp", "meta"} { // differ between token instances
 			delete(f, k)
 		}
 		x, _ := json.Marshal(jsonFields(f))
@@ -311,10 +315,19 @@ var immOps = []immOp{
 		})
 		return fmt.Sprint(err, seen)
 	}},
+	{"encrypted and binary metadata", func(iw *immWorld) string {
+		encKey := bytes.Repeat([]byte{7}, 32)
+		s1, e1 := iw.dlg.Meta().GetEncryptedString("secret", encKey)
+		b1, e2 := iw.inv.Meta().GetEncryptedBytes("secret", encKey)
+		bl, e3 := iw.dlg.Meta().GetBytes("blob")
+		bl2, e4 := iw.inv.Meta().GetBytes("blob")
+		_, e5 := iw.inv.Meta().GetEncryptedBytes("secret", bytes.Repeat([]byte{8}, 32))
+		return fmt.Sprint(s1, e1, string(b1), e2, len(bl), e3, len(bl2), e4, e5 != nil)
+	}},
 	{"inv.Meta.getters", func(iw *immWorld) string {
 		m := iw.inv.Meta()
 		var out []any
-		for _, k := range append(append([]string{}, iw.keys...), "missing") {
+		for _, k := range append(append([]string{}, iw.keys...), "missing", "blob", "secret") {
 			sv, e1 := m.GetString(k)
 			iv, e2 := m.GetInt64(k)
 			_, e3 := m.GetBool(k)
@@ -324,6 +337,10 @@ var immOps = []immOp{
 			var nj any
 			if e6 == nil {
 				nj = jsonOf(n)
+				if k == "secret" { // a ciphertext: differs between token instances
+					b, _ := n.AsBytes()
+					nj = len(b)
+				}
 			}
 			out = append(out, k, sv, e1 != nil, iv, e2 != nil, e3 != nil, e4 != nil, e5 != nil, nj)
 		}
@@ -375,7 +392,7 @@ var immOps = []immOp{
 		d := ""
 		if err3 == nil {
 			_, f, _ := fieldsOf(t)
-			for _, k := range []string{"nonce", "nbf", "exp"} {
+			for _, k := range []string{"nonce", "nbf", "exp", "meta"} {
 				delete(f, k)
 			}
 			x, _ := json.Marshal(jsonFields(f))
